@@ -95,6 +95,11 @@ type Stream struct {
 	// being decoded, summed across the HEADERS frame and its CONTINUATIONs.
 	headerListSize int
 
+	// trailers is set once a second header block starts on the stream: its
+	// fields follow the body, and neither pseudo-headers nor the framing of
+	// the message belong there.
+	trailers bool
+
 	// original type
 	origType        FrameType
 	startedAt       time.Time
@@ -142,6 +147,7 @@ func NewStream(id uint32, win int32) *Stream {
 	strm.abandoned = false
 	strm.origType = 0
 	strm.headerListSize = 0
+	strm.trailers = false
 
 	return strm
 }
